@@ -4,7 +4,7 @@ import vlib, gen_facts
 from props import codec_common as cc
 from props import c01
 
-THEOREMS = ['C06_data_roundtrip']
+THEOREMS = ['C06_fixed_width', 'C06_data_roundtrip', 'C06_data_roundtrip_header', 'C06_message_roundtrip', 'C06_finding_group_data', 'C06_finding_trailer_signature']
 
 
 def special_data(rng, n):
